@@ -61,11 +61,25 @@ Fixpoint lookup (tb : table) (f : fnid) (x y : float) : res float :=
   end.
 
 (* ---------- primitive operations ---------- *)
+(* int -> float as CPython does it (correctly rounded, ties to even).  Below 2^63
+   the primitive conversion is used; a larger magnitude is cut to its leading 63
+   bits with the discarded part OR-ed into the last bit (round to odd), so that the
+   primitive conversion's rounding to 53 bits is the correct rounding of the
+   whole integer, and scaled back exactly.  (Beyond the double range CPython
+   raises OverflowError; not reachable by the modelled code.) *)
+Definition f_ofpos (z : Z) : float :=
+  if (z <? 2 ^ 63)%Z then of_uint63 (Uint63.of_Z z)
+  else
+    let s := (Z.log2 z - 62)%Z in
+    let m := Z.shiftr z s in
+    let sticky := if (Z.land z (2 ^ s - 1) =? 0)%Z then 0%Z else 1%Z in
+    Z.ldexp (of_uint63 (Uint63.of_Z (Z.lor m sticky))) s.
+
 Definition f_ofZ (z : Z) : float :=
   match z with
   | Z0 => fzero
-  | Zpos _ => of_uint63 (Uint63.of_Z z)
-  | Zneg p => - of_uint63 (Uint63.of_Z (Zpos p))
+  | Zpos _ => f_ofpos z
+  | Zneg p => - f_ofpos (Zpos p)
   end.
 
 Definition f_div (a b : float) : res float :=
